@@ -7,6 +7,7 @@ package varmq
 
 import (
 	"fmt"
+	"os"
 	"sort"
 	"strings"
 
@@ -294,6 +295,15 @@ func (j *judgeCtx) checkExecution() {
 			j.add("C10.e", j.final, "%s", msg)
 		}
 	}
+	// C10.e second half: removed by a purge but never cancelled (handle never released)
+	for _, c := range j.r.calls {
+		if c.K == opStatus && c.Arg == 1 && j.ep.Res.Verdict == simrt.VDone {
+			s := wd.subs[c.Sub]
+			if s.Purged != 0 && len(s.Entries) == 0 && !c.OK {
+				j.add("C10.e", c.Ret, "job %d was removed from its queue by a purge at %d but never cancelled: its handle still reports %q at rest and its waiters are never released", s.N, s.Purged, c.Str)
+			}
+		}
+	}
 	// C03.a second half: reported Processing with nobody executing
 	for _, c := range j.r.calls {
 		if c.K == opStatus && c.Arg == 1 && c.Str == "Processing" && c.Val2 == 0 && j.ep.Res.Verdict == simrt.VDone {
@@ -310,57 +320,40 @@ func (j *judgeCtx) lostToFault(s *Sub) bool { return false }
 
 // ---------------------------------------------------------------- C02 : concurrency bound
 
-func (j *judgeCtx) buildLimits() {
+func (j *judgeCtx) buildLimits() {}
+
+// maxLimit returns the largest limit possibly in effect at any instant of
+// [a,b]: the value definitely in effect at a (last TunePool that returned nil
+// by then, else the configured one) and every TunePool that succeeded or was
+// still running within the window (an increase counts from its invoke, a
+// decrease only from its return: the allowed bound is never too small).
+func (j *judgeCtx) maxLimit(a, b uint64) int {
 	wd := j.wd
-	cur := wd.effConc(wd.cfg.Conc)
-	j.limits = []limSeg{{0, cur}}
+	def := wd.effConc(wd.cfg.Conc)
+	var defRet uint64
+	m := 0
 	for _, c := range j.r.calls {
 		if c.K != opTune {
 			continue
 		}
-		n := wd.effConc(c.Arg)
-		// an increase may take effect from the invoke; a decrease is only
-		// guaranteed from the return: the allowed bound is never too small
-		j.limits = append(j.limits, limSeg{c.Inv, n})
-	}
-}
-
-// maxLimit returns the largest limit possibly in effect at any instant of [a,b].
-func (j *judgeCtx) maxLimit(a, b uint64) int {
-	m := 0
-	// value in effect at a: the last segment starting <= a, but a decrease
-	// whose TunePool had not returned by a does not count yet
-	for i, l := range j.limits {
-		if l.From <= b {
-			// segment i is possibly in effect within [a,b] if its successor starts after a
-			end := ^uint64(0)
-			if i+1 < len(j.limits) {
-				end = j.tuneRet(i + 1)
-			}
-			if end > a && l.Max > m {
-				m = l.Max
-			}
+		if c.Ret != 0 && c.Err != "" {
+			continue // refused: no effect
 		}
+		n := wd.effConc(c.Arg)
+		if c.Ret != 0 && c.Ret <= a {
+			if c.Ret >= defRet {
+				def, defRet = n, c.Ret
+			}
+			continue
+		}
+		if c.Inv <= b && n > m {
+			m = n
+		}
+	}
+	if def > m {
+		m = def
 	}
 	return m
-}
-
-// tuneRet: return seq of the TunePool call that starts limits[i] (its
-// predecessor stays possibly in effect until then).
-func (j *judgeCtx) tuneRet(i int) uint64 {
-	k := 0
-	for _, c := range j.r.calls {
-		if c.K == opTune {
-			k++
-			if k == i {
-				if c.Ret == 0 {
-					return ^uint64(0)
-				}
-				return c.Ret
-			}
-		}
-	}
-	return ^uint64(0)
 }
 
 func (j *judgeCtx) checkConcurrency() {
@@ -398,6 +391,9 @@ func (j *judgeCtx) checkConcurrency() {
 		}
 		lim := j.maxLimit(oldest, f.Seq)
 		if len(cur) > lim {
+			if os.Getenv("VERIF_DEBUG") != "" {
+				fmt.Println("DEBUG C02.a", f, cur, oldest, lim, len(j.r.fns))
+			}
 			j.add("C02.a", f.Seq, "%d worker-function invocations in progress, but the largest concurrency limit in effect since the oldest of them was dispatched (seq %d) is %d", len(cur), oldest, lim)
 		}
 	}
@@ -1108,22 +1104,40 @@ func (j *judgeCtx) checkOutcomes() {
 		if len(s.Entries) == 0 {
 			continue
 		}
-		want := s.ID
-		if want == "" && wd.cfg.IDGen && s.Batch < 0 {
-			want = s.genID
-		}
 		if s.Batch >= 0 {
-			// one fixed injective decoration of Item.ID: must end with the item id and be the same decoration for all items
-			if !strings.HasSuffix(s.IDSeen, s.ID) {
+			// one fixed injective decoration of Item.ID: must end with the item id
+			if !strings.HasSuffix(s.IDSeen, s.ID) || s.ID == "" {
 				j.add("C07.b", s.Entries[0], "batch item %d (Item.ID %q) carried id %q inside the worker function", s.N, s.ID, s.IDSeen)
 			}
 			continue
 		}
-		if wd.qs[s.Q%len(wd.qs)].ad != nil && want == "" && wd.cfg.IDGen {
+		if s.ID != "" || !wd.cfg.IDGen {
+			if s.IDSeen != s.ID {
+				j.add("C07.b", s.Entries[0], "job %d carried id %q inside the worker function, want %q", s.N, s.IDSeen, s.ID)
+			}
 			continue
 		}
-		if s.IDSeen != want {
-			j.add("C07.b", s.Entries[0], "job %d carried id %q inside the worker function, want %q", s.N, s.IDSeen, want)
+		if wd.qs[s.Q%len(wd.qs)].cfg.Kind >= qkDist {
+			continue // distributed producers do not use the worker's generator
+		}
+		// generated id: a value the generator returned to this Add (same task, within the call), used by no other job
+		var task int
+		for _, c := range j.callsOn(s.N, opAdd) {
+			task = c.Task
+		}
+		okID := false
+		for _, g := range j.r.gens {
+			if g.Task == task && g.Seq >= s.AddInv && g.Seq <= s.AddRet && g.ID == s.IDSeen {
+				okID = true
+			}
+		}
+		if !okID {
+			j.add("C07.b", s.Entries[0], "job %d carried id %q inside the worker function, which the id generator did not return during its Add [%d,%d]", s.N, s.IDSeen, s.AddInv, s.AddRet)
+		}
+		for _, o := range wd.subs {
+			if o.N < s.N && len(o.Entries) > 0 && o.IDSeen == s.IDSeen && o.ID == "" && o.Batch < 0 {
+				j.add("C07.b", s.Entries[0], "jobs %d and %d both carried the generated id %q", o.N, s.N, s.IDSeen)
+			}
 		}
 	}
 	// errors offered on Errs() correspond to failed jobs
